@@ -486,6 +486,8 @@ def run(ctx: Ctx) -> None:
         mode = "Q" if i % 2 == 0 else "F"
         doc = nc.gen_doc(ctx.rng, mode)
         eps = nc.gen_eps(ctx.rng, mode)
+        doc, eps, fam = nc.maybe_rescale(ctx.rng, doc, eps, mode)
+        ctx.count(fam)
         one_case(ctx, doc, eps, mode, reqs, todo, mode)
     if ctx.tier == "thorough" and ctx.budget <= 1.0:
         exhaustive_single_module(ctx, reqs, todo)
